@@ -20,7 +20,7 @@ pub fn exe(name: &str) -> PathBuf {
 #[derive(Clone, Debug)]
 pub enum LogEv {
     Connect { t: u64, what: String },
-    Rd { t: u64, kind: String, n: usize, segs: usize, total: usize },
+    Rd { t: u64, kind: String, segs: usize, total: usize },
     Poll { t: u64, hit: bool },
     Ev { t: u64, json: String },
     Frame { t: u64, k: u64, total: usize },
@@ -55,7 +55,7 @@ pub fn parse_log(text: &str) -> Vec<LogEv> {
             "CONNECT" => v.push(LogEv::Connect { t, what: parts.get(3).unwrap_or(&"").to_string() }),
             "RD" => {
                 let kind = if rest.first().map(|s| s.starts_with("n=")).unwrap_or(false) { "data".to_string() } else { rest.first().unwrap_or(&"").to_string() };
-                v.push(LogEv::Rd { t, kind, n: kv(&rest, "n"), segs: kv(&rest, "segs"), total: kv(&rest, "total") });
+                v.push(LogEv::Rd { t, kind, segs: kv(&rest, "segs"), total: kv(&rest, "total") });
             }
             "POLL" => v.push(LogEv::Poll { t, hit: rest.first() == Some(&"1") }),
             "EV" => v.push(LogEv::Ev { t, json: parts.get(3).unwrap_or(&"").to_string() }),
